@@ -188,6 +188,20 @@ class Body:
                 for (_, pl, rv) in b.stmts:
                     if not pl[1] and rv[0] == 'agg' and rv[1] == 'adt' and cnt[pl[0]] == 1:
                         aggv[pl[0]] = rv[3]
+            # `?` on a constant Result/Option: Try::branch keeps the variant (Ok->Continue, Err->Break)
+            for b in self.blocks:
+                t = b.term
+                if t[0] == 'call' and not t[1].dest[1] and cnt[t[1].dest[0]] == 1 and t[1].args:
+                    c = t[1]
+                    if any(n.endswith('::Try>::branch') or n.endswith('::Try::branch') for n in c.names()):
+                        a = c.args[0]
+                        if a[0] in ('copy', 'move') and not a[1][1] and a[1][0] in aggv:
+                            src = aggv[a[1][0]]
+                            ty = self.locals[a[1][0]][0]
+                            if 'result::Result<' in ty.split('<', 1)[0] + '<':
+                                aggv[c.dest[0]] = src          # Ok(0)->Continue(0), Err(1)->Break(1)
+                            elif 'option::Option<' in ty.split('<', 1)[0] + '<':
+                                aggv[c.dest[0]] = 1 - src      # Some(1)->Continue(0), None(0)->Break(1)
             for b in self.blocks:
                 for (_, pl, rv) in b.stmts:
                     if not pl[1] and rv[0] == 'discr' and not rv[1][1] and cnt[pl[0]] == 1 \
@@ -281,6 +295,12 @@ class Body:
                 if s not in seen:
                     dq.append(s)
         return seen
+
+    def live(self):
+        l = getattr(self, '_live', None)
+        if l is None:
+            l = self._live = self.reach([0])
+        return l
 
     def preds(self):
         p = defaultdict(list)
